@@ -102,7 +102,7 @@ def gen_residue(rng, resname, tag, nested=False):
     # some of the distance targets are written as [ constraints ] (same graph edges, same tolerance)
     as_constraints = sorted(bi for bi in range(len(bonds)) if rng.random() < 0.25) if rng.random() < 0.4 else []
     return {'resname': resname, 'atoms': atoms, 'bonds': bonds, 'angles': angles, 'impropers': impropers, 'vs': vs, 'vs2nd': vs2nd,
-            'as_constraints': as_constraints}
+            'as_constraints': as_constraints, 'proper_first': rng.choice([None, None, 'same', 'reversed']) if impropers else None}
 
 
 def frustrated_case(rng, constraints):
@@ -132,6 +132,13 @@ def moltype_text(name, residues):
         for i, j, k, th in res['angles']:
             angles.append(f"{idx + i} {idx + j} {idx + k} 2 {th} 50")
         for i, j, k, l, th in res.get('impropers', []):
+            if res.get('proper_first'):
+                # a periodic term on the same four atoms listed before the harmonic one (also written in the other direction):
+                # both belong to the residue, the harmonic one sets a target of the template
+                quad = (idx + i, idx + j, idx + k, idx + l)
+                if res['proper_first'] == 'reversed':
+                    quad = quad[::-1]
+                dihedrals.append(' '.join(str(x) for x in quad) + ' 1 180.0 2.0 2')
             dihedrals.append(f"{idx + i} {idx + j} {idx + k} {idx + l} 2 {th} 50")
         for vs in (res.get('vs2nd'), res['vs']):          # the dependent site's section first
             if not vs:
@@ -424,6 +431,18 @@ def judge(case, out):
                 ang = math.degrees(math.acos(max(-1, min(1, float(np.dot(v1, v2) / np.linalg.norm(v1) / np.linalg.norm(v2))))))
                 if abs(ang - th) > 5 + 1e-6:
                     bad.append((f"template of {rd['resname']} reported as optimised: angle at {names[j]} is {ang:.2f}, target {th}", None))
+                    break
+            for i, j, k, l, th in rd.get('impropers', []):
+                # the dihedral angle i-j-k-l (IUPAC / GROMACS sign convention), compared modulo 360 degrees
+                b1, b2, b3 = pts[j] - pts[i], pts[k] - pts[j], pts[l] - pts[k]
+                n1, n2 = np.cross(b1, b2), np.cross(b2, b3)
+                if np.linalg.norm(n1) < 1e-9 or np.linalg.norm(n2) < 1e-9:
+                    continue
+                phi = math.degrees(math.atan2(float(np.dot(np.cross(n1, n2), b2 / np.linalg.norm(b2))), float(np.dot(n1, n2))))
+                dev = abs((phi - th + 180.0) % 360.0 - 180.0)
+                if dev > 5 + 1e-6:
+                    bad.append((f"template of {rd['resname']} reported as optimised: improper dihedral {names[i]}-{names[j]}-{names[k]}-{names[l]} is "
+                                f"{phi:.2f}, target {th}", None))
                     break
         vol = out['volumes'].get(h)
         if vol is None or not math.isfinite(vol) or vol <= 0:
